@@ -5,25 +5,32 @@ from ..rules import sets
 
 def run(tier, runner):
     pts = matrix.smallset_points(tier)
-    progs = matrix.programs(runner, pts)
+    if tier == 'thorough':
+        pts += matrix.smallset_points('quick', std=20)
+    progs = matrix.programs(runner, pts) + matrix.real_programs(runner, tier)
     r_state = sets.ss_state(progs)
     r_dup = sets.ss_dup(progs)
     r_cmp = sets.cmp_obj(progs, (sets.SS,))
     r_node = sets.node(progs)
     r_node.findings = [f for f in r_node.findings if 'SmallSet' in f.key]
     r_sib = sets.alt_sib(progs)
+    r_mo = sets.merge_order(progs)
+    r_lex = sets.lex_sib(progs)
+    r_gr = sets.ss_grow(progs)
+    r_lex.require(4, 'state combinations of the ordering comparison')
+    r_gr.require(3, 'grow call sites')
     r_state.require(25, 'writes to the two containers of SmallSet')
     r_dup.require(3, 'adds to the inline vector')
     r_cmp.require(2, 'SmallSet functions using a comparator')
     r_node.require(2, 'insert(node) overloads')
     r_sib.require(8, 'state-dependent const members')
     return {
-        'results': [r_state, r_dup, r_cmp, r_node, r_sib],
+        'results': [r_state, r_dup, r_cmp, r_node, r_sib, r_mo, r_lex, r_gr],
         'explanation': 'C04 as stated (membership / size / comparison results over histories) is not decided.  Decided: SS-STATE - exactly one of the two '
                        'containers is written in each state (typestate on isSmall()/isSmallContFull()/grow() facts per operand; grow() moves all of the '
                        'vector into the set and clears it; private helpers are entered with their state established by every caller); SS-DUP - no path '
                        'adds to the inline vector without a membership test over it; CMP-OBJ - the stored comparator is used (also for the sorted '
-                       'snapshot of operator<); NODE; ALT-SIB - every state-dependent const member consults only the active container.  Both backings '
+                       'snapshot of operator<); NODE; ALT-SIB - every state-dependent const member consults only the active container; LEX-SIB - the four state combinations of operator< / <=> all return a lexicographical comparison of (this, other); MERGE-ORDER - merge traverses the source forwards; SS-GROW - the inline state is left only when the inline vector is full (or the merged set is large).  Both backings '
                        '(std::set and FlatSet) and several N are analysed, so the two instantiations are checked against the same rules.',
         'assumptions': ['the behaviour of the backing set (std::set / FlatSet) is trusted / C03'],
         'trusted': ['the amcsa plugin export', 'libstdc++ 12'],
